@@ -31,8 +31,56 @@ def relayout(rng, lexemes):
     return out + rng.choice(['', '\n', ' ', ' // trailing', '\n\n'])
 
 
+# independent reading of "every character and string escape denotes its documented value": the C meanings
+SIMPLE_ESCAPES = {'a': 7, 'b': 8, 'f': 12, 'n': 10, 'r': 13, 't': 9, '0': 0, "'": 39, '"': 34, '\\': 92}
+
+
+def escape_oracle(ctx):
+    """every \\xHH (all 256 values, both hex cases), every simple escape, \\u{...} over the low planes and the UTF-8 length
+    boundaries, each in five contexts: the token value must be exactly the denoted bytes"""
+    cases = []          # (escape text, denoted bytes)
+    for v in range(256):
+        for f in ('%02x', '%02X'):
+            cases.append(('\\x' + f % v, bytes([v])))
+    for c, v in SIMPLE_ESCAPES.items(): cases.append(('\\' + c, bytes([v])))
+    cps = list(range(0, 0x300)) + [0x7ff, 0x800, 0xfff, 0x1000, 0xd7ff, 0xe000, 0xffff, 0x10000, 0x1f30e, 0x10ffff]
+    for cp in cps:
+        cases.append(('\\u{%x}' % cp, chr(cp).encode('utf-8')))
+        cases.append(('\\u{%04X}' % cp, chr(cp).encode('utf-8')))
+    texts, bad, n = [], 0, 0
+    for esc, val in cases:
+        forms = [('"%s"' % esc, 'str', val), ('"A%sB"' % esc, 'str', b'A' + val + b'B'), ('"%s\\n"' % esc, 'str', val + b'\n'),
+                 ('"%s%s"' % (esc, esc), 'str', val + val), ('"\\\\%s"' % esc, 'str', b'\\' + val)]
+        if len(val) == 1: forms.append(("'%s'" % esc, 'chr', val))
+        for text, kind, want in forms:
+            n += 1
+            texts.append(text)
+            got = frontend.py_lex(text)
+            exp = '0:0-0:%d %s %s' % (len(text), kind, want.hex() if kind == 'str' else str(want[0]))
+            if len(got) != 2 or got[0] != exp:
+                bad += 1
+                if bad <= 3:
+                    ctx.violations.append(dict(what='escape %s does not denote its documented value: expected %r, lexer gave %r' % (esc, exp, got[:2]),
+                                               kind='ESCAPE', source=text, args=[], config={}))
+    # code points that do not exist: a LexerError located inside the literal, whatever the magnitude
+    for cp in [0x110000, 0x110001, 0xd800, 0xdfff, 0x7fffffff, 0x80000000, 0xffffffff, 0x100000000, 2 ** 63 - 1, 2 ** 63, 2 ** 64, 16 ** 30, 16 ** 400]:
+        for text in ('"\\u{%x}"' % cp, "'\\u{%X}'" % cp, '"ab\\u{%x}cd"' % cp):
+            n += 1
+            texts.append(text)
+            got = frontend.py_lex(text)
+            if len(got) != 1 or not got[0].startswith('#error 0:') or not (0 <= int(got[0].split(':')[1]) <= len(text)):
+                bad += 1
+                if bad <= 3:
+                    ctx.violations.append(dict(what='invalid code point escape must be a located LexerError, lexer gave %r' % got[:2], kind='ESCAPE', source=text, args=[], config={}))
+    ctx.stats['escape_oracle'] = dict(cases=n, failures=bad)
+    ctx.say('escape oracle: %d literal forms, %d failures' % (n, bad))
+    return texts
+
+
 def run(ctx):
-    extra = [open(f, encoding='utf-8').read() for f in sorted(glob.glob(os.path.join(hidlib.REPO, 'examples', '*.hid')))]
+    esc_texts = escape_oracle(ctx)
+    extra = esc_texts if ctx.tier == 'thorough' else ctx.rng.sample(esc_texts, 1500)
+    extra += [open(f, encoding='utf-8').read() for f in sorted(glob.glob(os.path.join(hidlib.REPO, 'examples', '*.hid')))]
     extra += ['', '\n', ' ', '//', 'a//b\nc', '1__2', '0x', '0x_1', "''", "'", '"', '"\\', '@', '!', '!=', '! x', '@if', '09_', '0b12', '0o8',
               '١٢_٣', '"\\u{110000}"', '"\\u{D800}"', "'é'", "'\\xff'", 'x.length', 'a<=b', 'a< =b', 'a??b', 'a? ?b']
     frontend.lex_suite(ctx, ctx.budget(3000, 60000), extra)
